@@ -65,7 +65,7 @@ PROPS = {
     },
     "C09": {
         "lean": ["Stackage.Props.C09"],
-        "streams": [{"name": "frozen", "quick": 4000, "thorough": 80000}],
+        "streams": [{"name": "frozen", "quick": 4000, "thorough": 80000}, {"name": "nestedro", "quick": 1000, "thorough": 20000}],
         "rule": "every exported method of Stack and Condition, enumerated by reflection (a method whose parameter types the sweep does not know makes it refuse to run), "
                 "invoked with arguments generated from its parameter types (ints incl. MinInt/MaxInt, strings, tri-state booleans, values incl. stacks / conditions / awkward "
                 "values, errors, operators, closures, auxiliary maps) singly and in sequences of 1-4 on read-only instances of every kind and content (nested trees, capacity, "
